@@ -16,7 +16,8 @@ RULE = (
     "defines --xf/--xb in :root, another uses var(--xf[, fallback]) without defining them). For every tree the fault placements are "
     "ENUMERATED: each fault kind {non-UTF-8 bytes, directory named *.css, dangling symlink *.css, stylesheet tinycss2 cannot "
     "re-serialise, empty file} x each directory of the tree x {a name that sorts first, a name that sorts last} (all of them for "
-    "trees with <= 2 directories, a drawn half otherwise). Each placement is run as a directory; the fault-free tree is also run "
+    "trees with <= 2 directories, a drawn half otherwise), plus write-side faults: the place of each healthy file's output occupied by "
+    "a directory or a dangling link. Each placement is run as a directory; the fault-free tree is also run "
     "twice in a row; every healthy file is run alone on a pristine copy. Oracle: byte-identical outputs, 'Error processing <path>' "
     "for faulty entries, no output for them, no *_cm_cm.css, second run reproduces the first, foreign *_cm.css untouched. "
     "evaluations = CLI runs; non-trivial: (tree, placement) runs with >= 2 healthy sheets and a fault or a cross-file variable; "
@@ -28,6 +29,8 @@ ASSUMPTIONS = [
 ]
 
 FAULT_KINDS = ["non-utf8", "dir-named-css", "dangling-link", "unserialisable", "empty"]
+# write-side faults: the place where a healthy file's output belongs is occupied (rel = that healthy file)
+WRITE_FAULTS = ["output-is-directory", "output-is-dangling-link"]
 UNSERIALISABLE = ":root { *zoom: 1; --x: 1px }\n.broken { color: #777777 }\n"
 
 
@@ -50,6 +53,10 @@ def _place_fault(root, kind, rel):
             f.write(UNSERIALISABLE)
     elif kind == "empty":
         open(p, "w").close()
+    elif kind == "output-is-directory":
+        os.makedirs(os.path.join(root, cli.out_name(rel)))
+    elif kind == "output-is-dangling-link":
+        os.symlink(os.path.join(root, "no-such-dir", "x.css"), os.path.join(root, cli.out_name(rel)))
 
 
 def _outputs(run, rels):
@@ -84,7 +91,10 @@ def judge(case):
         if run["exit"] != 0 or run["exception"]:
             raise Violation("directory-run-aborted", f"{label}: cm-colors exited {run['exit']} ({run['exception']}); stderr {run['stderr'][-300:]!r}; {what}")
         outs = _outputs(run, files)
+        blocked = fault[1] if fault and fault[0] in WRITE_FAULTS else None
         for rel in files:
+            if rel == blocked:
+                continue  # its output cannot be written: it is the faulty file of this run
             if outs[rel] is None:
                 raise Violation("healthy-file-without-output", f"{label}: {rel} has no output although it is a valid stylesheet (stderr {run['stderr'][-200:]!r}); {what}")
             if outs[rel] != alone[rel]:
@@ -98,7 +108,7 @@ def judge(case):
         for rel in run["before"]:
             if run["after"].get(rel) != run["before"][rel] and not rel.endswith("_cm.css") and rel != cli.REPORT:
                 raise Violation("input-modified", f"{label}: {rel} changed; {what}")
-        expected_new = {cli.out_name(rel) for rel in files}
+        expected_new = {cli.out_name(rel) for rel in files if rel != blocked}
         if fault and fault[0] == "empty":
             expected_new.add(cli.out_name(fault[1]))
         new = {rel for rel in run["after"] if rel not in run["before"] and rel != cli.REPORT}
@@ -208,12 +218,19 @@ def strategy(draw):
         for d in all_dirs:
             for nm in ("!first.css", "~last.css"):
                 placements.append((kind, f"{d}/{nm}"))
+    for kind in WRITE_FAULTS:
+        for rel in sorted(files):
+            placements.append((kind, rel))
     if len(all_dirs) > 2 or n > 3:
         idx = draw(st.lists(st.integers(0, len(placements) - 1), min_size=len(placements) // 2, max_size=len(placements) // 2, unique=True))
         placements = [placements[i] for i in sorted(idx)]
-    return {"files": files, "foreign": foreign, "settings": draw(sheets.cli_settings()), "placements": placements, "cross": cross}
+    settings = draw(sheets.cli_settings())
+    if cross and draw(st.integers(0, 2)) == 0:
+        # --default-bg given as a reference to a custom property that only SOME of the files define
+        settings["default_bg"] = draw(st.sampled_from(["var(--xb, #fafafa)", "var(--xb, white)", "var(--xf, #ffffff)", "var(--xb)"]))
+    return {"files": files, "foreign": foreign, "settings": settings, "placements": placements, "cross": cross}
 
 
 def subchecks(tier):
     q = tier == "quick"
-    return [Hyp("trees-with-enumerated-fault-placements", strategy, judge_counted, examples=96 if q else 2400)]
+    return [Hyp("trees-with-enumerated-fault-placements", strategy, judge_counted, examples=80 if q else 2400)]
